@@ -13,6 +13,8 @@ Inductive lclause :=
 | ClStopGrace         (* a Stop returned only because its grace period expired (some goroutine could not be joined) *)
 | ClStopOverGrace     (* a Stop call was still running after its grace period plus the harness's margin: it was held by
                          something other than the grace-bounded join (a lock kept across user code, ...) *)
+| ClSecondStopBlocked (* a Stop call made while another Stop was in progress (or after one returned) did not return within
+                         the harness's bound: a repeated / concurrent / re-entrant Stop must be a no-op that returns at once *)
 | ClEmitStuck         (* an Emit parked on a full data channel when Stop was called was not released by that Stop *)
 | ClStuck             (* a call did not return (harness patience) *)
 | ClLeak              (* more goroutines after Stop than before New *)
@@ -40,6 +42,7 @@ Definition lmon_ev (m : lmon) (e : levent) : lmon + lclause :=
   | ESyncEnd t ok => if ok && existsb (Nat.eqb t) (m_late m) then inr ClSyncAfterStop else inl m
   | ETimeout => inr ClStuck
   | EStopOver _ => inr ClStopOverGrace
+  | EStopAgainOver _ => inr ClSecondStopBlocked
   | EEmitOver _ => inr ClEmitStuck
   | EGoroutines b f => if b <? f then inr ClLeak else inl m
   | _ => inl m
